@@ -239,6 +239,7 @@ def goodHead (lvl : Nat) : Tok → Bool
   | .op .ellipsis | .op .lpar | .op .lsqb | .op .lbrace => true
   | .kw .not => decide (lvl ≤ 4)
   | .op .plus | .op .minus | .op .tilde => decide (lvl ≤ 12)
+  | .kw .await => decide (lvl ≤ 14)
   | _ => false
 
 theorem goodHead_anti {lvl lvl' : Nat} {t : Tok} (h : lvl ≤ lvl') (hg : goodHead lvl' t = true) :
@@ -383,6 +384,19 @@ def unaryTok : UnaryOp → Tok
 theorem toks_unaryOpOuts (o : UnaryOp) : toks (unaryOpOuts o) = [unaryTok o] := by
   cases o <;> rfl
 
+theorem unparse_call_plain (p : Nat → Bool) (fn : Expr) (args : List Expr) (h : inFragList args = true) (lvl : Nat) :
+    toks (unparse p (.call fn args []) lvl) =
+      toks (unparse p fn 15) ++ .op .lpar :: (toks (unparseSeq p args 1 true) ++ [.op .rpar]) := by
+  cases args with
+  | nil => simp [unparse, unparseSeq, unparseKeywords, Prec.ATOM, op]
+  | cons a as =>
+    cases as with
+    | nil =>
+      cases a <;> first
+        | (exfalso; simp [inFragList, inFrag] at h; done)
+        | simp [unparse, unparseSeq, unparseKeywords, delim, Prec.ATOM, Prec.TEST, op]
+    | cons b bs => simp [unparse, unparseKeywords, Prec.ATOM, Prec.TEST, op]
+
 /-- first token of the rendering of a fragment expression -/
 theorem firstTok (p : Nat → Bool) : (e : Expr) → inFrag e = true → ∀ lvl : Nat,
     ∃ t r, toks (unparse p e lvl) = t :: r ∧ goodHead lvl t = true
@@ -397,6 +411,43 @@ theorem firstTok (p : Nat → Bool) : (e : Expr) → inFrag e = true → ∀ lvl
     obtain ⟨t, r', ht, hgood⟩ := firstTok p v hv Prec.ATOM
     refine ⟨t, r' ++ [.op .dot, .name n], ?_, goodHead_anti_atom hgood⟩
     by_cases hi : isIntConst v = true <;> simp [unparse, hi, ht, op]
+  | .call fn args [], h, lvl => by
+    have hfn : inFrag fn = true := by simp [inFrag] at h; exact h.1
+    have hargs : inFragList args = true := by simp [inFrag] at h; exact h.2
+    obtain ⟨t, r', ht, hgood⟩ := firstTok p fn hfn Prec.ATOM
+    refine ⟨t, r' ++ (.op .lpar :: (toks (unparseSeq p args 1 true) ++ [.op .rpar])), ?_, goodHead_anti_atom hgood⟩
+    rw [unparse_call_plain p fn args hargs lvl]
+    have : (15 : Nat) = Prec.ATOM := rfl
+    rw [this, ht]; rfl
+  | .subscript v s, h, lvl => by
+    have hv : inFrag v = true := by simp [inFrag] at h; exact h.1.1
+    obtain ⟨t, r', ht, hgood⟩ := firstTok p v hv Prec.ATOM
+    refine ⟨t, r' ++ (.op .lsqb :: (toks (unparse p s Prec.TUPLE) ++ [.op .rsqb])), ?_, goodHead_anti_atom hgood⟩
+    simp [unparse, ht, op]
+  | .await v, h, lvl => by
+    rw [unparse_group p _ lvl Prec.AWAIT rfl, toks_groupIf]
+    by_cases hg : lvl > Prec.AWAIT
+    · exact ⟨.op .lpar, _, by rw [if_pos (by simpa using hg)], rfl⟩
+    · simp only [hg, decide_false, Bool.false_eq_true, if_false]
+      refine ⟨.kw .await, toks (unparse p v Prec.ATOM), by simp [unparse, groupIf, kw], ?_⟩
+      simp [goodHead, Prec.AWAIT] at hg ⊢; omega
+  | .dict items, _, lvl => ⟨.op .lbrace, toks (unparseDictItems p items true) ++ [.op .rbrace], by simp [unparse, op], rfl⟩
+  | .yield none, _, lvl => ⟨.op .lpar, [.kw .yield, .op .rpar], by simp [unparse, op, kw], rfl⟩
+  | .yield (some v), _, lvl => ⟨.op .lpar, .kw .yield :: (toks (unparse p v Prec.TEST) ++ [.op .rpar]), by simp [unparse, op, kw], rfl⟩
+  | .yieldFrom v, _, lvl => ⟨.op .lpar, .kw .yield :: .kw .from :: (toks (unparse p v Prec.TEST) ++ [.op .rpar]), by simp [unparse, op, kw], rfl⟩
+  | .list es, _, lvl => ⟨.op .lsqb, toks (unparseSeq p es Prec.TEST true) ++ [.op .rsqb], by simp [unparse, op], rfl⟩
+  | .set es, _, lvl => ⟨.op .lbrace, toks (unparseSeq p es Prec.TEST true) ++ [.op .rbrace], by simp [unparse, op], rfl⟩
+  | .tuple [], _, lvl => ⟨.op .lpar, [.op .rpar], by simp [unparse, op], rfl⟩
+  | .tuple (x :: xs), h, lvl => by
+    have hx : inFrag x = true := by simp [inFrag, inFragList] at h; exact h.1
+    rw [unparse_group p _ lvl Prec.TUPLE rfl, toks_groupIf]
+    by_cases hg : lvl > Prec.TUPLE
+    · exact ⟨.op .lpar, _, by rw [if_pos (by simpa using hg)], rfl⟩
+    · simp only [hg, decide_false, Bool.false_eq_true, if_false]
+      obtain ⟨t, r', ht, hgood⟩ := firstTok p x hx Prec.TEST
+      refine ⟨t, r' ++ (toks (unparseSeq p xs Prec.TEST false) ++ toks (if (x :: xs).length = 1 then [op .comma] else [])), ?_,
+        goodHead_anti (by simp [Prec.TUPLE] at hg; simp [hg, Prec.TEST]) hgood⟩
+      simp [unparse, groupIf, unparseSeq, delim, ht]
   | .unaryOp o x, h, lvl => by
     rw [unparse_group p _ lvl (unaryOpPrec o) rfl, toks_groupIf]
     by_cases hg : lvl > unaryOpPrec o
@@ -444,10 +495,10 @@ theorem firstTok (p : Nat → Bool) : (e : Expr) → inFrag e = true → ∀ lvl
       refine ⟨t', r' ++ (.kw .if :: (toks (unparse p t (Prec.TEST + 1)) ++ .kw .else :: toks (unparse p o Prec.TEST))), ?_,
         goodHead_anti (by omega) hgood⟩
       simp [unparse, groupIf, ht, kw]
-  | .namedExpr .., h, _ | .lambda .., h, _ | .dict .., h, _ | .set .., h, _ | .listComp .., h, _
-  | .setComp .., h, _ | .dictComp .., h, _ | .genExp .., h, _ | .await .., h, _ | .yield .., h, _
-  | .yieldFrom .., h, _ | .call .., h, _ | .formattedValue .., h, _ | .joinedStr .., h, _
-  | .subscript .., h, _ | .starred .., h, _ | .list .., h, _ | .tuple .., h, _
+  | .namedExpr .., h, _ | .lambda .., h, _ | .listComp .., h, _
+  | .setComp .., h, _ | .dictComp .., h, _ | .genExp .., h, _
+  | .call _ _ (_ :: _), h, _ | .formattedValue .., h, _ | .joinedStr .., h, _
+  | .starred .., h, _
   | .slice .., h, _ => by simp [inFrag] at h
 
 theorem toks_cmpOpOuts_noWalrus (o : CmpOp) : .op .walrus ∉ toks (cmpOpOuts o) := by
@@ -466,6 +517,53 @@ theorem noWalrus (p : Nat → Bool) : (e : Expr) → inFrag e = true → ∀ lvl
     have hv : inFrag v = true := by simpa [inFrag] using h
     have := noWalrus p v hv Prec.ATOM
     by_cases hi : isIntConst v = true <;> simp [unparse, hi, this, op]
+  | .call fn args [], h, lvl => by
+    have hfn : inFrag fn = true := by simp [inFrag] at h; exact h.1
+    have hargs : inFragList args = true := by simp [inFrag] at h; exact h.2
+    have h1 := noWalrus p fn hfn 15
+    have h2 := noWalrusSeq p args hargs 1 true
+    rw [unparse_call_plain p fn args hargs lvl]
+    simp [h1, h2]
+  | .subscript v s, h, lvl => by
+    have hv : inFrag v = true := by simp [inFrag] at h; exact h.1.1
+    have hs : inFrag s = true := by simp [inFrag] at h; exact h.1.2
+    have h1 := noWalrus p v hv Prec.ATOM
+    have h2 := noWalrus p s hs Prec.TUPLE
+    simp [unparse, h1, h2, op]
+  | .await v, h, lvl => by
+    have hv : inFrag v = true := by simpa [inFrag] using h
+    have := noWalrus p v hv Prec.ATOM
+    simp only [unparse, toks_groupIf]
+    split <;> simp [this, kw]
+  | .dict items, h, lvl => by
+    have hi : inFragItems items = true := by simpa [inFrag] using h
+    have := noWalrusItems p items hi true
+    simp [unparse, this, op]
+  | .yield none, _, lvl => by simp [unparse, op, kw]
+  | .yield (some v), h, lvl => by
+    have hv : inFrag v = true := by simpa [inFrag] using h
+    have := noWalrus p v hv Prec.TEST
+    simp [unparse, this, op, kw]
+  | .yieldFrom v, h, lvl => by
+    have hv : inFrag v = true := by simpa [inFrag] using h
+    have := noWalrus p v hv Prec.TEST
+    simp [unparse, this, op, kw]
+  | .list es, h, lvl => by
+    have hes : inFragList es = true := by simpa [inFrag] using h
+    have := noWalrusSeq p es hes Prec.TEST true
+    simp [unparse, this, op]
+  | .set es, h, lvl => by
+    have hes : inFragList es = true := by simp [inFrag] at h; exact h.2
+    have := noWalrusSeq p es hes Prec.TEST true
+    simp [unparse, this, op]
+  | .tuple es, h, lvl => by
+    have hes : inFragList es = true := by simpa [inFrag] using h
+    have := noWalrusSeq p es hes Prec.TEST true
+    cases es with
+    | nil => simp [unparse, op]
+    | cons x xs =>
+      simp only [unparse, toks_groupIf, List.isEmpty_cons, Bool.false_eq_true, if_false]
+      split <;> split <;> simp [this, op]
   | .unaryOp o x, h, lvl => by
     have hx : inFrag x = true := by simpa [inFrag] using h
     have := noWalrus p x hx (unaryOpPrec o)
@@ -499,10 +597,10 @@ theorem noWalrus (p : Nat → Bool) : (e : Expr) → inFrag e = true → ∀ lvl
     have h3 := noWalrus p o ho Prec.TEST
     simp only [unparse, toks_groupIf]
     split <;> simp [h1, h2, h3, kw]
-  | .namedExpr .., h, _ | .lambda .., h, _ | .dict .., h, _ | .set .., h, _ | .listComp .., h, _
-  | .setComp .., h, _ | .dictComp .., h, _ | .genExp .., h, _ | .await .., h, _ | .yield .., h, _
-  | .yieldFrom .., h, _ | .call .., h, _ | .formattedValue .., h, _ | .joinedStr .., h, _
-  | .subscript .., h, _ | .starred .., h, _ | .list .., h, _ | .tuple .., h, _
+  | .namedExpr .., h, _ | .lambda .., h, _ | .listComp .., h, _
+  | .setComp .., h, _ | .dictComp .., h, _ | .genExp .., h, _
+  | .call _ _ (_ :: _), h, _ | .formattedValue .., h, _ | .joinedStr .., h, _
+  | .starred .., h, _
   | .slice .., h, _ => by simp [inFrag] at h
 theorem noWalrusBool (p : Nat → Bool) : (vs : List Expr) → inFragList vs = true →
     ∀ (k : Kw) (lvl : Nat) (first : Bool), Tok.op .walrus ∉ toks (unparseBool p vs k lvl first)
@@ -513,6 +611,27 @@ theorem noWalrusBool (p : Nat → Bool) : (vs : List Expr) → inFragList vs = t
     have h1 := noWalrus p v hv lvl
     have h2 := noWalrusBool p vs hvs k lvl false
     cases first <;> simp [unparseBool, h1, h2, kw]
+theorem noWalrusSeq (p : Nat → Bool) : (xs : List Expr) → inFragList xs = true →
+    ∀ (lvl : Nat) (first : Bool), Tok.op .walrus ∉ toks (unparseSeq p xs lvl first)
+  | [], _, _, _ => by simp [unparseSeq]
+  | x :: xs, h, lvl, first => by
+    have hx : inFrag x = true := by simp [inFragList] at h; exact h.1
+    have hxs : inFragList xs = true := by simp [inFragList] at h; exact h.2
+    have h1 := noWalrus p x hx lvl
+    have h2 := noWalrusSeq p xs hxs lvl false
+    cases first <;> simp [unparseSeq, delim, h1, h2, op]
+theorem noWalrusItems (p : Nat → Bool) : (is : List DictItem) → inFragItems is = true →
+    ∀ (first : Bool), Tok.op .walrus ∉ toks (unparseDictItems p is first)
+  | [], _, _ => by simp [unparseDictItems]
+  | .mk none v :: is, h, _ => by simp [inFragItems] at h
+  | .mk (some k) v :: is, h, first => by
+    have hk : inFrag k = true := by simp [inFragItems] at h; exact h.1.1
+    have hv : inFrag v = true := by simp [inFragItems] at h; exact h.1.2
+    have his : inFragItems is = true := by simp [inFragItems] at h; exact h.2
+    have h1 := noWalrus p k hk Prec.TEST
+    have h2 := noWalrus p v hv Prec.TEST
+    have h3 := noWalrusItems p is his false
+    cases first <;> simp [unparseDictItems, delim, h1, h2, h3, op]
 theorem noWalrusCmps (p : Nat → Bool) : (cs : List Expr) → inFragList cs = true →
     ∀ (ops : List CmpOp), Tok.op .walrus ∉ toks (unparseCmps p ops cs)
   | [], _, ops => by cases ops <;> simp [unparseCmps]
@@ -523,6 +642,149 @@ theorem noWalrusCmps (p : Nat → Bool) : (cs : List Expr) → inFragList cs = t
     have h1 := noWalrus p c hc (Prec.CMP + 1)
     have h2 := noWalrusCmps p cs hcs os
     simp [unparseCmps, h1, h2, toks_cmpOpOuts_noWalrus]
+end
+
+theorem toks_cmpOpOuts_noAssign (o : CmpOp) : .op .assign ∉ toks (cmpOpOuts o) := by
+  cases o <;> simp [cmpOpOuts, toks, op, kw]
+
+mutual
+/-- `=` never occurs in the rendering of a fragment expression -/
+theorem noAssign (p : Nat → Bool) : (e : Expr) → inFrag e = true → ∀ lvl : Nat,
+    Tok.op .assign ∉ toks (unparse p e lvl)
+  | .name id, _, lvl => by simp [unparse]
+  | .const c, h, lvl => by
+    cases c with
+    | bool b => cases b <;> simp [unparse, constTok]
+    | _ => simp [unparse, constTok]
+  | .attribute v n, h, lvl => by
+    have hv : inFrag v = true := by simpa [inFrag] using h
+    have := noAssign p v hv Prec.ATOM
+    by_cases hi : isIntConst v = true <;> simp [unparse, hi, this, op]
+  | .call fn args [], h, lvl => by
+    have hfn : inFrag fn = true := by simp [inFrag] at h; exact h.1
+    have hargs : inFragList args = true := by simp [inFrag] at h; exact h.2
+    have h1 := noAssign p fn hfn 15
+    have h2 := noAssignSeq p args hargs 1 true
+    rw [unparse_call_plain p fn args hargs lvl]
+    simp [h1, h2]
+  | .subscript v s, h, lvl => by
+    have hv : inFrag v = true := by simp [inFrag] at h; exact h.1.1
+    have hs : inFrag s = true := by simp [inFrag] at h; exact h.1.2
+    have h1 := noAssign p v hv Prec.ATOM
+    have h2 := noAssign p s hs Prec.TUPLE
+    simp [unparse, h1, h2, op]
+  | .await v, h, lvl => by
+    have hv : inFrag v = true := by simpa [inFrag] using h
+    have := noAssign p v hv Prec.ATOM
+    simp only [unparse, toks_groupIf]
+    split <;> simp [this, kw]
+  | .dict items, h, lvl => by
+    have hi : inFragItems items = true := by simpa [inFrag] using h
+    have := noAssignItems p items hi true
+    simp [unparse, this, op]
+  | .yield none, _, lvl => by simp [unparse, op, kw]
+  | .yield (some v), h, lvl => by
+    have hv : inFrag v = true := by simpa [inFrag] using h
+    have := noAssign p v hv Prec.TEST
+    simp [unparse, this, op, kw]
+  | .yieldFrom v, h, lvl => by
+    have hv : inFrag v = true := by simpa [inFrag] using h
+    have := noAssign p v hv Prec.TEST
+    simp [unparse, this, op, kw]
+  | .list es, h, lvl => by
+    have hes : inFragList es = true := by simpa [inFrag] using h
+    have := noAssignSeq p es hes Prec.TEST true
+    simp [unparse, this, op]
+  | .set es, h, lvl => by
+    have hes : inFragList es = true := by simp [inFrag] at h; exact h.2
+    have := noAssignSeq p es hes Prec.TEST true
+    simp [unparse, this, op]
+  | .tuple es, h, lvl => by
+    have hes : inFragList es = true := by simpa [inFrag] using h
+    have := noAssignSeq p es hes Prec.TEST true
+    cases es with
+    | nil => simp [unparse, op]
+    | cons x xs =>
+      simp only [unparse, toks_groupIf, List.isEmpty_cons, Bool.false_eq_true, if_false]
+      split <;> split <;> simp [this, op]
+  | .unaryOp o x, h, lvl => by
+    have hx : inFrag x = true := by simpa [inFrag] using h
+    have := noAssign p x hx (unaryOpPrec o)
+    simp only [unparse, toks_groupIf]
+    split <;> simp [toks_unaryOpOuts, this] <;> cases o <;> simp [unaryTok]
+  | .binOp l o r, h, lvl => by
+    have hl : inFrag l = true := by simp [inFrag] at h; exact h.1
+    have hr : inFrag r = true := by simp [inFrag] at h; exact h.2
+    have h1 := noAssign p l hl (binOpPrec o + if o = .pow then 1 else 0)
+    have h2 := noAssign p r hr (binOpPrec o + if o = .pow then 0 else 1)
+    simp only [unparse, toks_groupIf]
+    split <;> simp [h1, h2] <;> cases o <;> simp [binOpTok]
+  | .boolOp o vs, h, lvl => by
+    have hv : inFragList vs = true := by simp [inFrag] at h; exact h.2
+    have := noAssignBool p vs hv (boolOpKw o) (boolOpPrec o + 1) true
+    simp only [unparse, toks_groupIf]
+    split <;> simp [this]
+  | .compare l ops cs, h, lvl => by
+    have hl : inFrag l = true := by simp [inFrag] at h; exact h.1.1.1
+    have hc : inFragList cs = true := by simp [inFrag] at h; exact h.2
+    have h1 := noAssign p l hl (Prec.CMP + 1)
+    have h2 := noAssignCmps p cs hc ops
+    simp only [unparse, toks_groupIf]
+    split <;> simp [h1, h2]
+  | .ifExp t b o, h, lvl => by
+    have ht : inFrag t = true := by simp [inFrag] at h; exact h.1.1
+    have hb : inFrag b = true := by simp [inFrag] at h; exact h.1.2
+    have ho : inFrag o = true := by simp [inFrag] at h; exact h.2
+    have h1 := noAssign p t ht (Prec.TEST + 1)
+    have h2 := noAssign p b hb (Prec.TEST + 1)
+    have h3 := noAssign p o ho Prec.TEST
+    simp only [unparse, toks_groupIf]
+    split <;> simp [h1, h2, h3, kw]
+  | .namedExpr .., h, _ | .lambda .., h, _ | .listComp .., h, _
+  | .setComp .., h, _ | .dictComp .., h, _ | .genExp .., h, _
+  | .call _ _ (_ :: _), h, _ | .formattedValue .., h, _ | .joinedStr .., h, _
+  | .starred .., h, _
+  | .slice .., h, _ => by simp [inFrag] at h
+theorem noAssignBool (p : Nat → Bool) : (vs : List Expr) → inFragList vs = true →
+    ∀ (k : Kw) (lvl : Nat) (first : Bool), Tok.op .assign ∉ toks (unparseBool p vs k lvl first)
+  | [], _, _, _, _ => by simp [unparseBool]
+  | v :: vs, h, k, lvl, first => by
+    have hv : inFrag v = true := by simp [inFragList] at h; exact h.1
+    have hvs : inFragList vs = true := by simp [inFragList] at h; exact h.2
+    have h1 := noAssign p v hv lvl
+    have h2 := noAssignBool p vs hvs k lvl false
+    cases first <;> simp [unparseBool, h1, h2, kw]
+theorem noAssignSeq (p : Nat → Bool) : (xs : List Expr) → inFragList xs = true →
+    ∀ (lvl : Nat) (first : Bool), Tok.op .assign ∉ toks (unparseSeq p xs lvl first)
+  | [], _, _, _ => by simp [unparseSeq]
+  | x :: xs, h, lvl, first => by
+    have hx : inFrag x = true := by simp [inFragList] at h; exact h.1
+    have hxs : inFragList xs = true := by simp [inFragList] at h; exact h.2
+    have h1 := noAssign p x hx lvl
+    have h2 := noAssignSeq p xs hxs lvl false
+    cases first <;> simp [unparseSeq, delim, h1, h2, op]
+theorem noAssignItems (p : Nat → Bool) : (is : List DictItem) → inFragItems is = true →
+    ∀ (first : Bool), Tok.op .assign ∉ toks (unparseDictItems p is first)
+  | [], _, _ => by simp [unparseDictItems]
+  | .mk none v :: is, h, _ => by simp [inFragItems] at h
+  | .mk (some k) v :: is, h, first => by
+    have hk : inFrag k = true := by simp [inFragItems] at h; exact h.1.1
+    have hv : inFrag v = true := by simp [inFragItems] at h; exact h.1.2
+    have his : inFragItems is = true := by simp [inFragItems] at h; exact h.2
+    have h1 := noAssign p k hk Prec.TEST
+    have h2 := noAssign p v hv Prec.TEST
+    have h3 := noAssignItems p is his false
+    cases first <;> simp [unparseDictItems, delim, h1, h2, h3, op]
+theorem noAssignCmps (p : Nat → Bool) : (cs : List Expr) → inFragList cs = true →
+    ∀ (ops : List CmpOp), Tok.op .assign ∉ toks (unparseCmps p ops cs)
+  | [], _, ops => by cases ops <;> simp [unparseCmps]
+  | c :: cs, h, [] => by simp [unparseCmps]
+  | c :: cs, h, o :: os => by
+    have hc : inFrag c = true := by simp [inFragList] at h; exact h.1
+    have hcs : inFragList cs = true := by simp [inFragList] at h; exact h.2
+    have h1 := noAssign p c hc (Prec.CMP + 1)
+    have h2 := noAssignCmps p cs hcs os
+    simp [unparseCmps, h1, h2, toks_cmpOpOuts_noAssign]
 end
 
 /-! ## atoms and parentheses -/
@@ -731,6 +993,23 @@ theorem rt_const (p : Nat → Bool) (c : Const) : RT p (.const c) := by
   have : toks (unparse p (.const c) lvl) = [constTok c] := by simp [unparse]
   rw [this]
   exact parses_atom (fun r hr => atom_const c r hr) (goodHead_constTok c) h1 h15 hs
+
+/-! ### await -/
+
+theorem rt_await (p : Nat → Bool) (x : Expr) (hx : inFrag x = true) (ih : RT p x) : RT p (.await x) := by
+  refine rt_of_own p (prec := 14) (by simpa [inFrag] using hx) rfl (by omega) (by omega) ?_
+  intro rest hs
+  have hx15 := ih 15 rest (by omega) (by omega) (hs.mono (by omega))
+  rw [parseAt_15] at hx15
+  rw [parseAt_14]
+  obtain ⟨n, hn⟩ := hx15
+  refine ⟨n + 1, fun fuel hf => ?_⟩
+  obtain ⟨f, rfl, hf'⟩ := fuel_succ hf
+  have : toks (unparse p (.await x) 14) = .kw .await :: toks (unparse p x 15) := by
+    simp [unparse, groupIf, Prec.AWAIT, Prec.ATOM, kw]
+  rw [this]
+  show parseAtomExpr (f + 1) (.kw .await :: (toks (unparse p x 15) ++ rest)) = _
+  rw [parseAtomExpr, hn f hf']
 
 /-! ### unary operators -/
 
@@ -1153,10 +1432,10 @@ theorem atomRT_of_rt (p : Nat → Bool) {e : Expr} {prec : Nat} (hf : inFrag e =
   simpa using this
 
 /-- from the trailer form to every level, for kinds that are never parenthesised -/
-theorem rt_of_trailRT (p : Nat → Bool) {e : Expr} (hk : kindPrec (kindOf e) = none)
+theorem rt_of_trailRT (p : Nat → Bool) {e : Expr} (hk : ∀ lvl, 1 ≤ lvl → unparse p e lvl = unparse p e 15)
     (hfirst : ∃ t r, toks (unparse p e 15) = t :: r ∧ goodHead 15 t = true) (h : TrailRT p e) : RT p e := by
   intro lvl rest h1 h15 hs
-  rw [unparse_nogroup p e lvl 15 hk]
+  rw [hk lvl h1]
   obtain ⟨j, n, hn⟩ := h rest hs.noStr
   have h2 : Parses parseAtomExpr2 (toks (unparse p e 15) ++ rest) e rest := by
     refine ⟨n + j + 1, fun fuel hf => ?_⟩
@@ -1177,6 +1456,607 @@ theorem trailRT_attribute (p : Nat → Bool) (v : Expr) (n : Ident) (ih : TrailR
   obtain ⟨j, m, hm⟩ := ih (.op .dot :: .name n :: rest) (by intro t r h; cases h; rfl)
   refine ⟨j + 1, m, fun f hf => ?_⟩
   rw [e1, show f + (j + 1) = (f + 1) + j by omega, hm (f + 1) (by omega), parseTrailers]
+
+/-! ### comma-separated element lists -/
+
+theorem toks_unparseSeq_cons (p : Nat → Bool) (x : Expr) (xs : List Expr) (lvl : Nat) :
+    toks (unparseSeq p (x :: xs) lvl true) = toks (unparse p x lvl) ++ toks (unparseSeq p xs lvl false) := by
+  simp [unparseSeq, delim]
+
+theorem toks_unparseSeq_cons' (p : Nat → Bool) (x : Expr) (xs : List Expr) (lvl : Nat) :
+    toks (unparseSeq p (x :: xs) lvl false) =
+      .op .comma :: (toks (unparse p x lvl) ++ toks (unparseSeq p xs lvl false)) := by
+  simp [unparseSeq, delim, op]
+
+theorem contTok_comma (lvl : Nat) : contTok lvl (.op .comma) = false := by
+  simp [contTok, isTrailerStart, isStringTok, binLevelOf, binOpOf, isCmpStart]
+theorem contTok_rsqb (lvl : Nat) : contTok lvl (.op .rsqb) = false := by
+  simp [contTok, isTrailerStart, isStringTok, binLevelOf, binOpOf, isCmpStart]
+theorem contTok_rbrace (lvl : Nat) : contTok lvl (.op .rbrace) = false := by
+  simp [contTok, isTrailerStart, isStringTok, binLevelOf, binOpOf, isCmpStart]
+
+/-- closing brackets -/
+def isClose (o : Op) : Bool := o == .rpar || o == .rsqb || o == .rbrace
+
+theorem contTok_close {o : Op} (h : isClose o = true) (lvl : Nat) : contTok lvl (.op o) = false := by
+  cases o <;> simp [isClose] at h <;> simp [contTok, isTrailerStart, isStringTok, binLevelOf, binOpOf, isCmpStart]
+
+theorem second_not_walrus {ts : List Tok} {c : Tok} {rest : List Tok} (hw : Tok.op .walrus ∉ ts)
+    (hne : ts ≠ []) (hc : c ≠ .op .walrus) : ∀ n r', ts ++ c :: rest ≠ .name n :: .op .walrus :: r' := by
+  intro n r' h
+  cases ts with
+  | nil => exact hne rfl
+  | cons a as =>
+    cases as with
+    | nil => simp at h; exact hc h.2.1
+    | cons b bs => simp at h; obtain ⟨_, rfl, _⟩ := h; simp at hw
+
+/-- one element of a display, followed by `,` or a closing bracket -/
+theorem elem_starOrNamed (p : Nat → Bool) {x : Expr} (hx : RT p x) (hfx : inFrag x = true) {c : Tok}
+    (hc : contTok 1 c = false) (hcw : c ≠ .op .walrus) (rest : List Tok) :
+    ∃ n, ∀ f, n ≤ f → parseStarOrNamed f (toks (unparse p x 1) ++ c :: rest) = some (x, c :: rest) := by
+  obtain ⟨t, r, ht, hg⟩ := firstTok p x hfx 1
+  have h := hx 1 (c :: rest) (Nat.le_refl _) (by omega) (Stop.cons hc)
+  rw [parseAt_1] at h
+  obtain ⟨n, hn⟩ := h
+  refine ⟨n + 2, fun fuel hf => ?_⟩
+  obtain ⟨f, rfl⟩ : ∃ f, fuel = f + 2 := ⟨fuel - 2, by omega⟩
+  have hT := hn f (by omega)
+  have hw := second_not_walrus (rest := rest) (noWalrus p x hfx 1) (by rw [ht]; simp) hcw
+  rw [ht] at hT hw ⊢
+  exact starOrNamed_of_test hT hg hw
+
+/-- the elements after the first one, up to the closing bracket -/
+theorem elemsRT (p : Nat → Bool) (close : Op) (hcl : isClose close = true) : (xs : List Expr) →
+    (∀ x ∈ xs, RT p x ∧ inFrag x = true) → ∀ rest, ∃ n, ∀ f, n ≤ f →
+      parseElems f close (toks (unparseSeq p xs 1 false) ++ .op close :: rest) = some ((xs, !xs.isEmpty), rest)
+  | [], _, rest => by
+    refine ⟨1, fun fuel hf => ?_⟩
+    obtain ⟨f, rfl, _⟩ := fuel_succ hf
+    simp only [unparseSeq, toks_nil, List.nil_append]
+    rw [parseElems_close f close (by cases close <;> simp [isClose] at hcl ⊢)]
+    rfl
+  | x :: xs, hxs, rest => by
+    obtain ⟨hx, hfx⟩ := hxs x (List.mem_cons_self ..)
+    obtain ⟨n2, hn2⟩ := elemsRT p close hcl xs (fun y hy => hxs y (List.mem_cons_of_mem _ hy)) rest
+    -- what follows `x`: a comma (more elements) or the closing bracket
+    have hnext : ∃ c r', toks (unparseSeq p xs 1 false) ++ .op close :: rest = c :: r' ∧ contTok 1 c = false ∧
+        c ≠ .op .walrus := by
+      cases xs with
+      | nil => exact ⟨.op close, rest, by simp [unparseSeq], contTok_close hcl 1, by cases close <;> simp [isClose] at hcl ⊢⟩
+      | cons y ys => exact ⟨.op .comma, _, by rw [toks_unparseSeq_cons']; rfl, contTok_comma 1, by simp⟩
+    obtain ⟨c, r', hcr, hc, hcw⟩ := hnext
+    obtain ⟨n1, hn1⟩ := elem_starOrNamed p hx hfx hc hcw r'
+    obtain ⟨t, tr, ht, hg⟩ := firstTok p x hfx 1
+    refine ⟨n1 + n2 + 1, fun fuel hf => ?_⟩
+    obtain ⟨f, rfl⟩ : ∃ f, fuel = f + 1 := ⟨fuel - 1, by omega⟩
+    rw [toks_unparseSeq_cons', List.cons_append, List.append_assoc, hcr]
+    have hs := hn1 f (by omega)
+    have he := hn2 f (by omega)
+    rw [hcr] at he
+    unfold parseElems
+    split
+    · rename_i o r0 heq
+      rw [ht] at heq
+      simp at heq
+      obtain ⟨rfl, _⟩ := heq
+      have hne : o ≠ close := by
+        intro h; subst h
+        cases o <;> simp [isClose] at hcl <;> simp [goodHead] at hg
+      rw [if_neg hne, hs]
+      simp only
+      rw [he]
+      simp
+    · rw [hs]
+      simp only
+      rw [he]
+      simp
+
+
+theorem atCompFor_of_contTok {c : Tok} {r : List Tok} (hc : contTok 1 c = false) (h : c = .op .comma ∨ ∃ o, c = .op o ∧ isClose o = true) :
+    atCompFor (c :: r) = false := by
+  rcases h with rfl | ⟨o, rfl, _⟩ <;> rfl
+
+/-- what follows the first element of a non-empty display -/
+theorem after_first (p : Nat → Bool) (close : Op) (hcl : isClose close = true) (xs : List Expr) (rest : List Tok) :
+    ∃ c r', toks (unparseSeq p xs 1 false) ++ .op close :: rest = c :: r' ∧ contTok 1 c = false ∧
+      c ≠ .op .walrus ∧ atCompFor (c :: r') = false ∧ (∀ r1, c :: r' ≠ .op .colon :: r1) := by
+  cases xs with
+  | nil =>
+    refine ⟨.op close, rest, by simp [unparseSeq], contTok_close hcl 1, ?_, ?_, ?_⟩ <;>
+      cases close <;> simp [isClose] at hcl ⊢ <;> rfl
+  | cons y ys =>
+    exact ⟨.op .comma, _, by rw [toks_unparseSeq_cons']; rfl, contTok_comma 1, by simp, rfl, by simp⟩
+
+theorem atomRT_list (p : Nat → Bool) (xs : List Expr) (hxs : ∀ x ∈ xs, RT p x ∧ inFrag x = true) :
+    AtomRT p (.list xs) := by
+  intro rest _
+  cases xs with
+  | nil =>
+    refine parses_of_eq 2 (fun f => ?_)
+    simp [unparse, unparseSeq, op, parseAtom, parseListAtom]
+  | cons x xs =>
+    obtain ⟨hx, hfx⟩ := hxs x (List.mem_cons_self ..)
+    obtain ⟨c, r', hcr, hc, hcw, hcomp, _⟩ := after_first p .rsqb rfl xs rest
+    obtain ⟨n1, hn1⟩ := elem_starOrNamed p hx hfx hc hcw r'
+    obtain ⟨n2, hn2⟩ := elemsRT p .rsqb rfl xs (fun y hy => hxs y (List.mem_cons_of_mem _ hy)) rest
+    obtain ⟨t, tr, ht, hg⟩ := firstTok p x hfx 1
+    have e1 : toks (unparse p (.list (x :: xs)) 15) ++ rest =
+        .op .lsqb :: (toks (unparse p x 1) ++ (toks (unparseSeq p xs 1 false) ++ .op .rsqb :: rest)) := by
+      simp [unparse, toks_unparseSeq_cons, Prec.TEST, op]
+    refine ⟨n1 + n2 + 2, fun fuel hf => ?_⟩
+    obtain ⟨f, rfl⟩ : ∃ f, fuel = f + 2 := ⟨fuel - 2, by omega⟩
+    have hs := hn1 f (by omega)
+    have he := hn2 f (by omega)
+    rw [e1, hcr, parseAtom]
+    rw [hcr] at he
+    unfold parseListAtom
+    split
+    · omega
+    · rename_i heq; rw [ht] at heq; simp at heq; obtain ⟨rfl, _⟩ := heq; simp [goodHead] at hg
+    · rename_i f' hfe _
+      obtain rfl : f' = f := by omega
+      rw [hs]
+      simp only [hcomp, Bool.false_eq_true, if_false]
+      rw [he]
+
+theorem atomRT_tuple (p : Nat → Bool) (xs : List Expr) (hxs : ∀ x ∈ xs, RT p x ∧ inFrag x = true) :
+    AtomRT p (.tuple xs) := by
+  intro rest _
+  cases xs with
+  | nil =>
+    refine parses_of_eq 2 (fun f => ?_)
+    simp [unparse, op, parseAtom, parseParenAtom]
+  | cons x xs =>
+    obtain ⟨hx, hfx⟩ := hxs x (List.mem_cons_self ..)
+    obtain ⟨t, tr, ht, hg⟩ := firstTok p x hfx 1
+    cases xs with
+    | nil =>
+      -- `(x,)`
+      obtain ⟨n1, hn1⟩ := elem_starOrNamed p hx hfx (contTok_comma 1) (by simp) (.op .rpar :: rest)
+      have e1 : toks (unparse p (.tuple [x]) 15) ++ rest =
+          .op .lpar :: (toks (unparse p x 1) ++ .op .comma :: .op .rpar :: rest) := by
+        simp [unparse, groupIf, unparseSeq, delim, Prec.TUPLE, Prec.TEST, op]
+      refine ⟨n1 + 3, fun fuel hf => ?_⟩
+      obtain ⟨f, rfl⟩ : ∃ f, fuel = f + 3 := ⟨fuel - 3, by omega⟩
+      have hs := hn1 (f + 1) (by omega)
+      rw [e1, parseAtom]
+      unfold parseParenAtom
+      split
+      · omega
+      · rename_i heq; rw [ht] at heq; simp at heq; obtain ⟨rfl, _⟩ := heq; simp [goodHead] at hg
+      · rename_i heq; rw [ht] at heq; simp at heq; obtain ⟨rfl, _⟩ := heq; simp [goodHead] at hg
+      · rename_i f' hfe _ _
+        obtain rfl : f' = f + 1 := by omega
+        rw [hs]
+        simp [atCompFor, parseElems]
+    | cons y ys =>
+      obtain ⟨c, r', hcr, hc, hcw, hcomp, _⟩ := after_first p .rpar rfl (y :: ys) rest
+      obtain ⟨n1, hn1⟩ := elem_starOrNamed p hx hfx hc hcw r'
+      obtain ⟨n2, hn2⟩ := elemsRT p .rpar rfl (y :: ys) (fun z hz => hxs z (List.mem_cons_of_mem _ hz)) rest
+      have e1 : toks (unparse p (.tuple (x :: y :: ys)) 15) ++ rest =
+          .op .lpar :: (toks (unparse p x 1) ++ (toks (unparseSeq p (y :: ys) 1 false) ++ .op .rpar :: rest)) := by
+        simp [unparse, groupIf, toks_unparseSeq_cons, Prec.TUPLE, Prec.TEST, op]
+      refine ⟨n1 + n2 + 2, fun fuel hf => ?_⟩
+      obtain ⟨f, rfl⟩ : ∃ f, fuel = f + 2 := ⟨fuel - 2, by omega⟩
+      have hs := hn1 f (by omega)
+      have he := hn2 f (by omega)
+      rw [e1, hcr, parseAtom]
+      rw [hcr] at he
+      unfold parseParenAtom
+      split
+      · omega
+      · rename_i heq; rw [ht] at heq; simp at heq; obtain ⟨rfl, _⟩ := heq; simp [goodHead] at hg
+      · rename_i heq; rw [ht] at heq; simp at heq; obtain ⟨rfl, _⟩ := heq; simp [goodHead] at hg
+      · rename_i f' hfe _ _
+        obtain rfl : f' = f := by omega
+        rw [hs]
+        simp only [hcomp, Bool.false_eq_true, if_false]
+        rw [he]
+
+theorem atomRT_set (p : Nat → Bool) (x : Expr) (xs : List Expr) (hxs : ∀ y ∈ x :: xs, RT p y ∧ inFrag y = true) :
+    AtomRT p (.set (x :: xs)) := by
+  intro rest _
+  obtain ⟨hx, hfx⟩ := hxs x (List.mem_cons_self ..)
+  obtain ⟨t, tr, ht, hg⟩ := firstTok p x hfx 1
+  obtain ⟨c, r', hcr, hc, hcw, hcomp, hcolon⟩ := after_first p .rbrace rfl xs rest
+  obtain ⟨n2, hn2⟩ := elemsRT p .rbrace rfl xs (fun z hz => hxs z (List.mem_cons_of_mem _ hz)) rest
+  have h1 := hx 1 (c :: r') (Nat.le_refl _) (by omega) (Stop.cons hc)
+  rw [parseAt_1] at h1
+  obtain ⟨n1, hn1⟩ := h1
+  have e1 : toks (unparse p (.set (x :: xs)) 15) ++ rest =
+      .op .lbrace :: (toks (unparse p x 1) ++ (toks (unparseSeq p xs 1 false) ++ .op .rbrace :: rest)) := by
+    simp [unparse, toks_unparseSeq_cons, Prec.TEST, op]
+  have hw := second_not_walrus (rest := r') (noWalrus p x hfx 1) (by rw [ht]; simp) hcw
+  refine ⟨n1 + n2 + 3, fun fuel hf => ?_⟩
+  obtain ⟨f, rfl⟩ : ∃ f, fuel = f + 3 := ⟨fuel - 3, by omega⟩
+  have hs := hn1 f (by omega)
+  have he := hn2 (f + 1) (by omega)
+  have hfirst : parseBraceFirst (f + 1) (toks (unparse p x 1) ++ c :: r') = some (x, true, c :: r') := by
+    unfold parseBraceFirst
+    split
+    · omega
+    · rename_i heq2; rw [ht] at heq2; simp at heq2; obtain ⟨rfl, _⟩ := heq2; simp [goodHead] at hg
+    · rename_i heq2; exact absurd heq2 (hw _ _)
+    · rename_i f' hfe _ _
+      obtain rfl : f' = f := by omega
+      rw [hs]
+  rw [e1, hcr, parseAtom]
+  rw [hcr] at he
+  unfold parseBraceAtom
+  split
+  · omega
+  · rename_i heq; rw [ht] at heq; simp at heq; obtain ⟨rfl, _⟩ := heq; simp [goodHead] at hg
+  · rename_i heq; rw [ht] at heq; simp at heq; obtain ⟨rfl, _⟩ := heq; simp [goodHead] at hg
+  · rename_i f' hfe _ _
+    obtain rfl : f' = f + 1 := by omega
+    rw [hfirst]
+    split
+    · rename_i heq3; simp at heq3; obtain ⟨_, rfl, rfl⟩ := heq3; exact absurd rfl (hcolon _)
+    · rename_i heq3
+      simp at heq3
+      obtain ⟨rfl, _, rfl⟩ := heq3
+      simp only [hcomp, Bool.false_eq_true, if_false]
+      rw [he]
+    · rename_i heq3; simp at heq3
+
+/-! ### calls with positional arguments -/
+
+theorem namedTest_of_test {t : Tok} {r : List Tok} {e : Expr} {rest' : List Tok} {f : Nat}
+    (h : parseTest f (t :: r) = some (e, rest'))
+    (hw : ∀ n r', t :: r ≠ .name n :: .op .walrus :: r') :
+    parseNamedTest (f + 1) (t :: r) = some (e, rest') := by
+  unfold parseNamedTest
+  split
+  · omega
+  · rename_i heq2; exact absurd heq2 (hw _ _)
+  · rename_i f' hfe _
+    obtain rfl : f' = f := by omega
+    exact h
+
+theorem second_not_assign {ts : List Tok} {c : Tok} {rest : List Tok} (hw : Tok.op .assign ∉ ts)
+    (hne : ts ≠ []) (hc : c ≠ .op .assign) : ∀ n r', ts ++ c :: rest ≠ .name n :: .op .assign :: r' := by
+  intro n r' h
+  cases ts with
+  | nil => exact hne rfl
+  | cons a as =>
+    cases as with
+    | nil => simp at h; exact hc h.2.1
+    | cons b bs => simp at h; obtain ⟨_, rfl, _⟩ := h; simp at hw
+
+/-- one positional argument -/
+theorem arg_plain (p : Nat → Bool) {x : Expr} (hx : RT p x) (hfx : inFrag x = true) {c : Tok} {r' : List Tok}
+    (hc : c = .op .comma ∨ c = .op .rpar) (as0 : List Expr) :
+    ∃ n, ∀ f, n ≤ f →
+      parseArg f (toks (unparse p x 1) ++ c :: r') as0 [] false = some (as0 ++ [x], [], false, c :: r') := by
+  obtain ⟨t, tr, ht, hg⟩ := firstTok p x hfx 1
+  have hc1 : contTok 1 c = false := by rcases hc with rfl | rfl; exact contTok_comma 1; exact contTok_rpar 1
+  have hcw : c ≠ .op .walrus := by rcases hc with rfl | rfl <;> simp
+  have hca : c ≠ .op .assign := by rcases hc with rfl | rfl <;> simp
+  have h := hx 1 (c :: r') (Nat.le_refl _) (by omega) (Stop.cons hc1)
+  rw [parseAt_1] at h
+  obtain ⟨n, hn⟩ := h
+  have hw := second_not_walrus (rest := r') (noWalrus p x hfx 1) (by rw [ht]; simp) hcw
+  have ha := second_not_assign (rest := r') (noAssign p x hfx 1) (by rw [ht]; simp) hca
+  refine ⟨n + 2, fun f hf => ?_⟩
+  obtain ⟨f0, rfl⟩ : ∃ f0, f = f0 + 2 := ⟨f - 2, by omega⟩
+  have hT := hn f0 (by omega)
+  rw [ht] at hT hw ha ⊢
+  have hN : parseNamedTest (f0 + 1) (t :: tr ++ c :: r') = some (x, c :: r') := namedTest_of_test hT hw
+  have hcomp : atCompFor (c :: r') = false := by rcases hc with rfl | rfl <;> rfl
+  unfold parseArg
+  split
+  · omega
+  · rename_i heq; exact absurd heq (ha _ _)
+  · rename_i heq; simp at heq; obtain ⟨rfl, _⟩ := heq; simp [goodHead] at hg
+  · rename_i heq; simp at heq; obtain ⟨rfl, _⟩ := heq; simp [goodHead] at hg
+  · rename_i f' hfe _ _ _
+    obtain rfl : f' = f0 + 1 := by omega
+    rw [hN]
+    simp [hcomp]
+
+/-- all positional arguments up to the closing parenthesis -/
+theorem argsRT (p : Nat → Bool) : (xs : List Expr) → (∀ x ∈ xs, RT p x ∧ inFrag x = true) →
+    ∀ (as0 : List Expr) (rest : List Tok), ∃ n, ∀ f, n ≤ f →
+      parseArgs f (toks (unparseSeq p xs 1 true) ++ .op .rpar :: rest) as0 [] false = some ((as0 ++ xs, []), rest)
+  | [], _, as0, rest => by
+    refine ⟨1, fun fuel hf => ?_⟩
+    obtain ⟨f, rfl, _⟩ := fuel_succ hf
+    simp [unparseSeq, parseArgs]
+  | x :: xs, hxs, as0, rest => by
+    obtain ⟨hx, hfx⟩ := hxs x (List.mem_cons_self ..)
+    obtain ⟨t, tr, ht, hg⟩ := firstTok p x hfx 1
+    cases xs with
+    | nil =>
+      obtain ⟨n1, hn1⟩ := arg_plain p hx hfx (c := .op .rpar) (r' := rest) (Or.inr rfl) as0
+      refine ⟨n1 + 1, fun fuel hf => ?_⟩
+      obtain ⟨f, rfl⟩ : ∃ f, fuel = f + 1 := ⟨fuel - 1, by omega⟩
+      have hs := hn1 f (by omega)
+      have e1 : toks (unparseSeq p [x] 1 true) ++ .op .rpar :: rest = toks (unparse p x 1) ++ .op .rpar :: rest := by
+        simp [unparseSeq, delim]
+      rw [e1]
+      unfold parseArgs
+      split
+      · omega
+      · rename_i heq; rw [ht] at heq; simp at heq; obtain ⟨rfl, _⟩ := heq; simp [goodHead] at hg
+      · rename_i f' hfe _
+        obtain rfl : f' = f := by omega
+        rw [hs]
+    | cons y ys =>
+      obtain ⟨n1, hn1⟩ := arg_plain p hx hfx (c := .op .comma)
+        (r' := toks (unparseSeq p (y :: ys) 1 true) ++ .op .rpar :: rest) (Or.inl rfl) as0
+      obtain ⟨n2, hn2⟩ := argsRT p (y :: ys) (fun z hz => hxs z (List.mem_cons_of_mem _ hz)) (as0 ++ [x]) rest
+      refine ⟨n1 + n2 + 1, fun fuel hf => ?_⟩
+      obtain ⟨f, rfl⟩ : ∃ f, fuel = f + 1 := ⟨fuel - 1, by omega⟩
+      have hs := hn1 f (by omega)
+      have he := hn2 f (by omega)
+      have e1 : toks (unparseSeq p (x :: y :: ys) 1 true) ++ .op .rpar :: rest =
+          toks (unparse p x 1) ++ .op .comma :: (toks (unparseSeq p (y :: ys) 1 true) ++ .op .rpar :: rest) := by
+        simp [unparseSeq, delim, op]
+      rw [e1]
+      unfold parseArgs
+      split
+      · omega
+      · rename_i heq; rw [ht] at heq; simp at heq; obtain ⟨rfl, _⟩ := heq; simp [goodHead] at hg
+      · rename_i f' hfe _
+        obtain rfl : f' = f := by omega
+        rw [hs]
+        simp only
+        rw [he]
+        simp
+
+
+theorem trailRT_call (p : Nat → Bool) (fn : Expr) (args : List Expr) (hargs : inFragList args = true)
+    (ihf : TrailRT p fn) (ihargs : ∀ x ∈ args, RT p x ∧ inFrag x = true) : TrailRT p (.call fn args []) := by
+  intro rest _
+  rw [unparse_call_plain p fn args hargs 15, List.append_assoc, List.cons_append, List.append_assoc]
+  obtain ⟨j, n1, h1⟩ := ihf (.op .lpar :: (toks (unparseSeq p args 1 true) ++ ([.op .rpar] ++ rest)))
+    (by intro t r h; cases h; rfl)
+  obtain ⟨n2, h2⟩ := argsRT p args ihargs [] rest
+  refine ⟨j + 1, n1 + n2, fun f hf => ?_⟩
+  rw [show f + (j + 1) = (f + 1) + j by omega, h1 (f + 1) (by omega), parseTrailers]
+  have := h2 f (by omega)
+  simp only [List.singleton_append, List.nil_append] at this ⊢
+  rw [this]
+
+/-- a single plain index between `[` and `]` -/
+theorem subscriptList_plain (p : Nat → Bool) {s : Expr} (hs : RT p s) (hfs : inFrag s = true) (rest : List Tok) :
+    ∃ n, ∀ f, n ≤ f → parseSubscriptList f (toks (unparse p s 1) ++ .op .rsqb :: rest) = some (s, rest) := by
+  obtain ⟨t, tr, ht, hg⟩ := firstTok p s hfs 1
+  have h := hs 1 (.op .rsqb :: rest) (Nat.le_refl _) (by omega) (Stop.cons (contTok_rsqb 1))
+  rw [parseAt_1] at h
+  obtain ⟨n, hn⟩ := h
+  have hw := second_not_walrus (rest := rest) (c := .op .rsqb) (noWalrus p s hfs 1) (by rw [ht]; simp) (by simp)
+  refine ⟨n + 2, fun fuel hf => ?_⟩
+  obtain ⟨f, rfl⟩ : ∃ f, fuel = f + 2 := ⟨fuel - 2, by omega⟩
+  have hT := hn f (by omega)
+  have hsub : parseSubscript (f + 1) (toks (unparse p s 1) ++ .op .rsqb :: rest) = some (s, .op .rsqb :: rest) := by
+    rw [ht] at hT hw ⊢
+    unfold parseSubscript
+    split
+    · omega
+    · rename_i heq; simp at heq; obtain ⟨rfl, _⟩ := heq; simp [goodHead] at hg
+    · rename_i heq; simp at heq; obtain ⟨rfl, _⟩ := heq; simp [goodHead] at hg
+    · rename_i heq; exact absurd heq (hw _ _)
+    · rename_i f' hfe _ _ _
+      obtain rfl : f' = f := by omega
+      rw [hT]
+  rw [parseSubscriptList, hsub]
+
+theorem unparse_plainIndex (p : Nat → Bool) (s : Expr) (hf : inFrag s = true) (hp : plainIndex s = true) :
+    unparse p s 0 = unparse p s 1 := by
+  apply unparse_level_succ
+  cases s with
+  | tuple es => cases es <;> simp [plainIndex, kindOf, kindPrec] at *
+  | namedExpr t v => simp [inFrag] at hf
+  | boolOp o _ => cases o <;> simp [kindOf, kindPrec, boolOpPrec, Prec.AND, Prec.OR]
+  | unaryOp o _ => cases o <;> simp [kindOf, kindPrec, unaryOpPrec, Prec.NOT, Prec.FACTOR]
+  | binOp _ o _ =>
+    cases o <;> simp [kindOf, kindPrec, binOpPrec, Prec.ARITH, Prec.TERM, Prec.POWER, Prec.SHIFT, Prec.BOR,
+      Prec.BXOR, Prec.BAND]
+  | _ => simp [kindOf, kindPrec, Prec.TEST, Prec.CMP, Prec.AWAIT]
+
+theorem trailRT_subscript (p : Nat → Bool) (v s : Expr) (hfs : inFrag s = true) (hp : plainIndex s = true)
+    (ihv : TrailRT p v) (ihs : RT p s) : TrailRT p (.subscript v s) := by
+  intro rest _
+  have e1 : toks (unparse p (.subscript v s) 15) ++ rest =
+      toks (unparse p v 15) ++ .op .lsqb :: (toks (unparse p s 1) ++ .op .rsqb :: rest) := by
+    simp [unparse, Prec.ATOM, Prec.TUPLE, op, unparse_plainIndex p s hfs hp]
+  obtain ⟨j, n1, h1⟩ := ihv (.op .lsqb :: (toks (unparse p s 1) ++ .op .rsqb :: rest)) (by intro t r h; cases h; rfl)
+  obtain ⟨n2, h2⟩ := subscriptList_plain p ihs hfs rest
+  refine ⟨j + 1, n1 + n2, fun f hf => ?_⟩
+  rw [e1, show f + (j + 1) = (f + 1) + j by omega, h1 (f + 1) (by omega), parseTrailers, h2 f (by omega)]
+
+/-! ### dict displays -/
+
+theorem contTok_colon (lvl : Nat) : contTok lvl (.op .colon) = false := by
+  simp [contTok, isTrailerStart, isStringTok, binLevelOf, binOpOf, isCmpStart]
+
+theorem toks_dictItems_cons (p : Nat → Bool) (k v : Expr) (is : List DictItem) :
+    toks (unparseDictItems p (.mk (some k) v :: is) true) =
+      toks (unparse p k 1) ++ .op .colon :: (toks (unparse p v 1) ++ toks (unparseDictItems p is false)) := by
+  simp [unparseDictItems, delim, Prec.TEST, op]
+
+theorem toks_dictItems_cons' (p : Nat → Bool) (k v : Expr) (is : List DictItem) :
+    toks (unparseDictItems p (.mk (some k) v :: is) false) =
+      .op .comma :: (toks (unparse p k 1) ++ .op .colon :: (toks (unparse p v 1) ++ toks (unparseDictItems p is false))) := by
+  simp [unparseDictItems, delim, Prec.TEST, op]
+
+/-- what the induction gives for the entries of a dict display -/
+def GoodItems (p : Nat → Bool) : List DictItem → Prop
+  | [] => True
+  | .mk (some k) v :: is => (RT p k ∧ inFrag k = true) ∧ (RT p v ∧ inFrag v = true) ∧ GoodItems p is
+  | .mk none _ :: _ => False
+
+/-- what follows a dict value: `,` (more entries) or `}` -/
+theorem after_value (p : Nat → Bool) (is : List DictItem) (hg : GoodItems p is) (rest : List Tok) :
+    ∃ c r', toks (unparseDictItems p is false) ++ .op .rbrace :: rest = c :: r' ∧ contTok 1 c = false ∧
+      atCompFor (c :: r') = false := by
+  cases is with
+  | nil => exact ⟨.op .rbrace, rest, by simp [unparseDictItems], contTok_rbrace 1, rfl⟩
+  | cons i is' =>
+    cases i with
+    | mk k v =>
+      cases k with
+      | none => simp [GoodItems] at hg
+      | some k => exact ⟨.op .comma, _, by rw [toks_dictItems_cons']; rfl, contTok_comma 1, rfl⟩
+
+/-- `key ":" value` -/
+theorem dict_entry (p : Nat → Bool) {k v : Expr} (hk : RT p k) (hfk : inFrag k = true) (hv : RT p v)
+    {c : Tok} {r' : List Tok} (hc : contTok 1 c = false) :
+    ∃ n, ∀ f, n ≤ f →
+      parseTest f (toks (unparse p k 1) ++ .op .colon :: (toks (unparse p v 1) ++ c :: r')) =
+        some (k, .op .colon :: (toks (unparse p v 1) ++ c :: r')) ∧
+      parseTest f (toks (unparse p v 1) ++ c :: r') = some (v, c :: r') := by
+  have h1 := hk 1 (.op .colon :: (toks (unparse p v 1) ++ c :: r')) (Nat.le_refl _) (by omega) (Stop.cons (contTok_colon 1))
+  have h2 := hv 1 (c :: r') (Nat.le_refl _) (by omega) (Stop.cons hc)
+  rw [parseAt_1] at h1 h2
+  obtain ⟨n1, hn1⟩ := h1
+  obtain ⟨n2, hn2⟩ := h2
+  exact ⟨n1 + n2, fun f hf => ⟨hn1 f (by omega), hn2 f (by omega)⟩⟩
+
+theorem dictRestRT (p : Nat → Bool) : (is : List DictItem) → GoodItems p is → ∀ rest, ∃ n, ∀ f, n ≤ f →
+    parseDictRest f (toks (unparseDictItems p is false) ++ .op .rbrace :: rest) = some (is, rest)
+  | [], _, rest => by
+    refine ⟨1, fun fuel hf => ?_⟩
+    obtain ⟨f, rfl, _⟩ := fuel_succ hf
+    simp [unparseDictItems, parseDictRest]
+  | .mk none v :: is, hg, rest => by simp [GoodItems] at hg
+  | .mk (some k) v :: is, hg, rest => by
+    obtain ⟨⟨hk, hfk⟩, ⟨hv, hfv⟩, his⟩ := hg
+    obtain ⟨c, r', hcr, hc, _⟩ := after_value p is his rest
+    obtain ⟨n1, hn1⟩ := dict_entry p hk hfk hv (c := c) (r' := r') hc
+    obtain ⟨n2, hn2⟩ := dictRestRT p is his rest
+    obtain ⟨t, tr, ht, hg⟩ := firstTok p k hfk 1
+    refine ⟨n1 + n2 + 1, fun fuel hf => ?_⟩
+    obtain ⟨f, rfl⟩ : ∃ f, fuel = f + 1 := ⟨fuel - 1, by omega⟩
+    obtain ⟨hK, hV⟩ := hn1 f (by omega)
+    have hR := hn2 f (by omega)
+    rw [hcr] at hR
+    rw [toks_dictItems_cons', List.cons_append, List.append_assoc, List.cons_append, List.append_assoc, hcr]
+    unfold parseDictRest
+    split
+    · omega
+    · rename_i heq; simp at heq
+    · rename_i heq; simp at heq; rw [ht] at heq; simp at heq; obtain ⟨rfl, _⟩ := heq; simp [goodHead] at hg
+    · rename_i heq; simp at heq; rw [ht] at heq; simp at heq; obtain ⟨rfl, _⟩ := heq; simp [goodHead] at hg
+    · rename_i f' r0 _ _ hfe heq
+      obtain rfl : f' = f := by omega
+      simp only [List.cons.injEq, true_and] at heq
+      subst heq
+      rw [hK]
+      simp only
+      rw [hV]
+      simp only
+      rw [hR]
+    · rename_i heq; exact (heq _ rfl).elim
+
+theorem atomRT_dict (p : Nat → Bool) (is : List DictItem) (hg : GoodItems p is) : AtomRT p (.dict is) := by
+  intro rest _
+  cases is with
+  | nil =>
+    refine parses_of_eq 2 (fun f => ?_)
+    simp [unparse, unparseDictItems, op, parseAtom, parseBraceAtom]
+  | cons i is =>
+    cases i with
+    | mk k0 v =>
+      cases k0 with
+      | none => simp [GoodItems] at hg
+      | some k =>
+        obtain ⟨⟨hk, hfk⟩, ⟨hv, hfv⟩, his⟩ := hg
+        obtain ⟨c, r', hcr, hc, hcomp⟩ := after_value p is his rest
+        obtain ⟨n1, hn1⟩ := dict_entry p hk hfk hv (c := c) (r' := r') hc
+        obtain ⟨n2, hn2⟩ := dictRestRT p is his rest
+        obtain ⟨t, tr, ht, hgd⟩ := firstTok p k hfk 1
+        have hw := second_not_walrus (c := .op .colon) (rest := toks (unparse p v 1) ++ c :: r')
+          (noWalrus p k hfk 1) (by rw [ht]; simp) (by simp)
+        have e1 : toks (unparse p (.dict (.mk (some k) v :: is)) 15) ++ rest =
+            .op .lbrace :: (toks (unparse p k 1) ++ .op .colon :: (toks (unparse p v 1) ++ c :: r')) := by
+          simp [unparse, toks_dictItems_cons, op, ← hcr]
+        refine ⟨n1 + n2 + 3, fun fuel hf => ?_⟩
+        obtain ⟨f, rfl⟩ : ∃ f, fuel = f + 3 := ⟨fuel - 3, by omega⟩
+        obtain ⟨hK, _⟩ := hn1 f (by omega)
+        obtain ⟨_, hV⟩ := hn1 (f + 1) (by omega)
+        have hR := hn2 (f + 1) (by omega)
+        rw [hcr] at hR
+        have hfirst : parseBraceFirst (f + 1) (toks (unparse p k 1) ++ .op .colon :: (toks (unparse p v 1) ++ c :: r')) =
+            some (k, true, .op .colon :: (toks (unparse p v 1) ++ c :: r')) := by
+          unfold parseBraceFirst
+          split
+          · omega
+          · rename_i heq2; rw [ht] at heq2; simp at heq2; obtain ⟨rfl, _⟩ := heq2; simp [goodHead] at hgd
+          · rename_i heq2; exact absurd heq2 (hw _ _)
+          · rename_i f' hfe _ _
+            obtain rfl : f' = f := by omega
+            rw [hK]
+        rw [e1, parseAtom]
+        unfold parseBraceAtom
+        split
+        · omega
+        · rename_i heq; rw [ht] at heq; simp at heq; obtain ⟨rfl, _⟩ := heq; simp [goodHead] at hgd
+        · rename_i heq; rw [ht] at heq; simp at heq; obtain ⟨rfl, _⟩ := heq; simp [goodHead] at hgd
+        · rename_i f' hfe _ _
+          obtain rfl : f' = f + 1 := by omega
+          rw [hfirst]
+          simp only
+          rw [hV]
+          simp only [hcomp, Bool.false_eq_true, if_false]
+          rw [hR]
+
+/-! ### yield -/
+
+theorem test_then_rpar (p : Nat → Bool) {x : Expr} (hx : RT p x) (rest : List Tok) :
+    Parses parseTest (toks (unparse p x 1) ++ .op .rpar :: rest) x (.op .rpar :: rest) := by
+  have h := hx 1 (.op .rpar :: rest) (Nat.le_refl _) (by omega) (Stop.cons (contTok_rpar 1))
+  rwa [parseAt_1] at h
+
+theorem atomRT_yieldNone (p : Nat → Bool) : AtomRT p (.yield none) := by
+  intro rest _
+  refine parses_of_eq 3 (fun f => ?_)
+  simp [unparse, op, kw, parseAtom, parseParenAtom, parseYieldAtom]
+
+theorem atomRT_yieldFrom (p : Nat → Bool) (x : Expr) (hx : RT p x) : AtomRT p (.yieldFrom x) := by
+  intro rest _
+  obtain ⟨n, hn⟩ := test_then_rpar p hx rest
+  have e1 : toks (unparse p (.yieldFrom x) 15) ++ rest =
+      .op .lpar :: .kw .yield :: .kw .from :: (toks (unparse p x 1) ++ .op .rpar :: rest) := by
+    simp [unparse, op, kw, Prec.TEST]
+  refine ⟨n + 3, fun fuel hf => ?_⟩
+  obtain ⟨f, rfl⟩ : ∃ f, fuel = f + 3 := ⟨fuel - 3, by omega⟩
+  rw [e1, parseAtom, parseParenAtom, parseYieldAtom, hn f (by omega)]
+
+theorem atomRT_yieldSome (p : Nat → Bool) (x : Expr) (hx : RT p x) (hfx : inFrag x = true) :
+    AtomRT p (.yield (some x)) := by
+  intro rest _
+  obtain ⟨n, hn⟩ := test_then_rpar p hx rest
+  obtain ⟨t, tr, ht, hg⟩ := firstTok p x hfx 1
+  have e1 : toks (unparse p (.yield (some x)) 15) ++ rest =
+      .op .lpar :: .kw .yield :: (toks (unparse p x 1) ++ .op .rpar :: rest) := by
+    simp [unparse, op, kw, Prec.TEST]
+  refine ⟨n + 5, fun fuel hf => ?_⟩
+  obtain ⟨f, rfl⟩ : ∃ f, fuel = f + 5 := ⟨fuel - 5, by omega⟩
+  have hT := hn f (by omega)
+  have hTS : parseTestOrStar (f + 1) (toks (unparse p x 1) ++ .op .rpar :: rest) = some (x, .op .rpar :: rest) := by
+    rw [ht] at hT ⊢
+    unfold parseTestOrStar
+    split
+    · omega
+    · rename_i heq; simp at heq; obtain ⟨rfl, _⟩ := heq; simp [goodHead] at hg
+    · rename_i f' hfe _
+      obtain rfl : f' = f := by omega
+      exact hT
+  have hTL : parseTestList (f + 2) (toks (unparse p x 1) ++ .op .rpar :: rest) = some (x, .op .rpar :: rest) := by
+    rw [parseTestList, hTS]
+  rw [e1, parseAtom, parseParenAtom]
+  rw [ht] at hTL ⊢
+  unfold parseYieldAtom
+  split
+  · omega
+  · rename_i heq; simp at heq; obtain ⟨rfl, _⟩ := heq; simp [goodHead] at hg
+  · rename_i heq; simp at heq; obtain ⟨rfl, _⟩ := heq; simp [goodHead] at hg
+  · rename_i f' hfe _ _
+    obtain rfl : f' = f + 2 := by omega
+    rw [hTL]
 
 /-! ## the induction over the fragment -/
 
@@ -1205,12 +2085,17 @@ theorem good_of_rt (p : Nat → Bool) {e : Expr} {prec : Nat} (hf : inFrag e = t
   trail := trailRT_of_atomRT (atomRT_of_rt p hf hk hp1 hp hrt)
 
 /-- a node that is never parenthesised -/
+theorem good_of_trail' (p : Nat → Bool) {e : Expr} (hlvl : ∀ lvl, 1 ≤ lvl → unparse p e lvl = unparse p e 15)
+    (hk : ∀ k, kindPrec (kindOf e) ≠ some (k + 6))
+    (hfirst : ∃ t r, toks (unparse p e 15) = t :: r ∧ goodHead 15 t = true) (h : TrailRT p e) : Good p e :=
+  have hrt := rt_of_trailRT p hlvl hfirst h
+  { rt := hrt
+    loop := fun k hk5 => loopRT_other p hk5 (hk k) hrt
+    trail := h }
+
 theorem good_of_trail (p : Nat → Bool) {e : Expr} (hk : kindPrec (kindOf e) = none)
     (hfirst : ∃ t r, toks (unparse p e 15) = t :: r ∧ goodHead 15 t = true) (h : TrailRT p e) : Good p e :=
-  have hrt := rt_of_trailRT p hk hfirst h
-  { rt := hrt
-    loop := fun k hk5 => loopRT_other p hk5 (by rw [hk]; simp) hrt
-    trail := h }
+  good_of_trail' p (fun lvl _ => unparse_nogroup p e lvl 15 hk) (fun k => by rw [hk]; simp) hfirst h
 
 mutual
 theorem rt_all (p : Nat → Bool) : (e : Expr) → inFrag e = true → Good p e
@@ -1226,6 +2111,75 @@ theorem rt_all (p : Nat → Bool) : (e : Expr) → inFrag e = true → Good p e
     refine good_of_trail p rfl ?_ (trailRT_attribute p v n ihv.trail)
     obtain ⟨t, r, ht, hg⟩ := firstTok p (.attribute v n) h 15
     exact ⟨t, r, ht, hg⟩
+  | .call fn args [], h => by
+    have hfn : inFrag fn = true := by simp [inFrag] at h; exact h.1
+    have hargs : inFragList args = true := by simp [inFrag] at h; exact h.2
+    have ihf := rt_all p fn hfn
+    have ihargs := rt_list p args hargs
+    refine good_of_trail p ?_ ?_
+      (trailRT_call p fn args hargs ihf.trail (fun x hx => ⟨(ihargs x hx).1.rt, (ihargs x hx).2⟩))
+    · cases args <;> rfl
+    · obtain ⟨t, r, ht, hg⟩ := firstTok p (.call fn args []) h 15
+      exact ⟨t, r, ht, hg⟩
+  | .subscript v s, h => by
+    have hv : inFrag v = true := by simp [inFrag] at h; exact h.1.1
+    have hs : inFrag s = true := by simp [inFrag] at h; exact h.1.2
+    have hp : plainIndex s = true := by simp [inFrag] at h; exact h.2
+    have ihv := rt_all p v hv
+    have ihs := rt_all p s hs
+    refine good_of_trail p rfl ?_ (trailRT_subscript p v s hs hp ihv.trail ihs.rt)
+    obtain ⟨t, r, ht, hg⟩ := firstTok p (.subscript v s) h 15
+    exact ⟨t, r, ht, hg⟩
+  | .await v, h => by
+    have hv : inFrag v = true := by simpa [inFrag] using h
+    exact good_of_rt p h (prec := 14) rfl (by omega) (by omega) (rt_await p v hv (rt_all p v hv).rt)
+      (fun k _ hk => by omega)
+  | .dict items, h => by
+    have hi : inFragItems items = true := by simpa [inFrag] using h
+    refine good_of_trail p rfl ?_ (trailRT_of_atomRT (atomRT_dict p items (rt_items p items hi)))
+    obtain ⟨t, r, ht, hg⟩ := firstTok p (.dict items) h 15
+    exact ⟨t, r, ht, hg⟩
+  | .yield none, h =>
+    good_of_trail p rfl ⟨.op .lpar, [.kw .yield, .op .rpar], by simp [unparse, op, kw], rfl⟩
+      (trailRT_of_atomRT (atomRT_yieldNone p))
+  | .yield (some v), h => by
+    have hv : inFrag v = true := by simpa [inFrag] using h
+    refine good_of_trail p rfl ?_ (trailRT_of_atomRT (atomRT_yieldSome p v (rt_all p v hv).rt hv))
+    obtain ⟨t, r, ht, hg⟩ := firstTok p (.yield (some v)) h 15
+    exact ⟨t, r, ht, hg⟩
+  | .yieldFrom v, h => by
+    have hv : inFrag v = true := by simpa [inFrag] using h
+    refine good_of_trail p rfl ?_ (trailRT_of_atomRT (atomRT_yieldFrom p v (rt_all p v hv).rt))
+    obtain ⟨t, r, ht, hg⟩ := firstTok p (.yieldFrom v) h 15
+    exact ⟨t, r, ht, hg⟩
+  | .list es, h => by
+    have hes : inFragList es = true := by simpa [inFrag] using h
+    have ihes := rt_list p es hes
+    refine good_of_trail p rfl ?_ (trailRT_of_atomRT (atomRT_list p es (fun x hx => ⟨(ihes x hx).1.rt, (ihes x hx).2⟩)))
+    obtain ⟨t, r, ht, hg⟩ := firstTok p (.list es) h 15
+    exact ⟨t, r, ht, hg⟩
+  | .set [], h => by simp [inFrag] at h
+  | .set (x :: xs), h => by
+    have hes : inFragList (x :: xs) = true := by simp [inFrag] at h ⊢; simpa [inFragList] using h
+    have ihes := rt_list p (x :: xs) hes
+    refine good_of_trail p rfl ?_ (trailRT_of_atomRT (atomRT_set p x xs (fun y hy => ⟨(ihes y hy).1.rt, (ihes y hy).2⟩)))
+    obtain ⟨t, r, ht, hg⟩ := firstTok p (.set (x :: xs)) h 15
+    exact ⟨t, r, ht, hg⟩
+  | .tuple es, h => by
+    have hes : inFragList es = true := by simpa [inFrag] using h
+    have ihes := rt_list p es hes
+    refine good_of_trail' p ?_ ?_ ?_ (trailRT_of_atomRT (atomRT_tuple p es (fun x hx => ⟨(ihes x hx).1.rt, (ihes x hx).2⟩)))
+    · intro lvl h1
+      cases es with
+      | nil => simp [unparse]
+      | cons x xs =>
+        rw [unparse_group p _ lvl Prec.TUPLE rfl, unparse_group p _ 15 Prec.TUPLE rfl]
+        have : decide (lvl > Prec.TUPLE) = decide (15 > Prec.TUPLE) := by simp [Prec.TUPLE]; omega
+        rw [this]
+    · intro k
+      cases es <;> simp [kindOf, kindPrec, Prec.TUPLE]
+    · obtain ⟨t, r, ht, hg⟩ := firstTok p (.tuple es) h 15
+      exact ⟨t, r, ht, hg⟩
   | .unaryOp o x, h => by
     have hx : inFrag x = true := by simpa [inFrag] using h
     have ihx := (rt_all p x hx).rt
@@ -1274,11 +2228,19 @@ theorem rt_all (p : Nat → Bool) : (e : Expr) → inFrag e = true → Good p e
     have ho : inFrag o = true := by simp [inFrag] at h; exact h.2
     exact good_of_rt p h (prec := 1) rfl (by omega) (by omega)
       (rt_ifExp p t b o h (rt_all p t ht).rt (rt_all p b hb).rt (rt_all p o ho).rt) (fun k _ hk => by omega)
-  | .namedExpr .., h | .lambda .., h | .dict .., h | .set .., h | .listComp .., h
-  | .setComp .., h | .dictComp .., h | .genExp .., h | .await .., h | .yield .., h
-  | .yieldFrom .., h | .call .., h | .formattedValue .., h | .joinedStr .., h
-  | .subscript .., h | .starred .., h | .list .., h | .tuple .., h
+  | .namedExpr .., h | .lambda .., h | .listComp .., h
+  | .setComp .., h | .dictComp .., h | .genExp .., h
+  | .call _ _ (_ :: _), h | .formattedValue .., h | .joinedStr .., h
+  | .starred .., h
   | .slice .., h => by simp [inFrag] at h
+theorem rt_items (p : Nat → Bool) : (is : List DictItem) → inFragItems is = true → GoodItems p is
+  | [], _ => trivial
+  | .mk none v :: is, h => by simp [inFragItems] at h
+  | .mk (some k) v :: is, h => by
+    have hk : inFrag k = true := by simp [inFragItems] at h; exact h.1.1
+    have hv : inFrag v = true := by simp [inFragItems] at h; exact h.1.2
+    have his : inFragItems is = true := by simp [inFragItems] at h; exact h.2
+    exact ⟨⟨(rt_all p k hk).rt, hk⟩, ⟨(rt_all p v hv).rt, hv⟩, rt_items p is his⟩
 theorem rt_list (p : Nat → Bool) : (es : List Expr) → inFragList es = true →
     ∀ e ∈ es, Good p e ∧ inFrag e = true
   | [], _ => by simp
